@@ -68,6 +68,7 @@ ACTIONS = ['addToHead', 'addToTail', 'addBefore', 'addAfter', 'addReplace', 'hea
            'h', 't', 'b', 'a', 'r']
 CFG0 = dict(client=0, logins=2, nbuf=8, ncb=8, nab=12, initnode=1000)
 CFG1 = dict(client=1, logins=2, nbuf=8, ncb=8, nab=12, initnode=1000)
+CFGT = dict(client=1, logins=2, nbuf=4, ncb=4, nab=8, initnode=1000)      # two addresses per client and space
 CFGW = dict(client=1, logins=2, nbuf=6, ncb=6, nab=10, initnode=1000, nodestart=(1 << 26) - 2)   # node ids wrap
 
 
@@ -119,7 +120,8 @@ def node_ops(bus=2, buf=3, other=1):
             op('move_before', h=4, tk='obj', t=other), op('move_after', h=4, tk='obj', t=other),
             op('move_to_head', h=4, tk='obj', t=other), op('move_to_tail', h=4, tk='none'),
             op('free_all', h=1), op('deep_free', h=1), op('free', h=1), op('s_get', h=4, a=[ts('freq')]),
-            op('free_default_group'), op('reorder', a=[tobj(4), tobj(1)], tk='obj', t=1, act='addToTail')]
+            op('free_default_group'), op('reorder', a=[tobj(4), tobj(1)], tk='obj', t=1, act='addToTail'),
+            op('s_getn', h=4, a=[ti(2)], n=[3]), op('n_query', h=4), op('dump_tree', h=1, n=[1]), op('dump_tree', h=1, n=[0])]
     return ops
 
 
@@ -174,12 +176,21 @@ def fam_buffer_commands():
             op('b_cue', h=1, **{'def': '/tmp/x.wav'}, n=[0, 8], cm='none'), op('b_cue', h=1, **{'def': '/tmp/x.wav'}, n=[64, 8], cm='func'),
             op('b_write', h=1, **{'def': '/tmp/y.aiff'}, n=[-1, 0, 0], cm='none'), op('b_write', h=1, **{'def': '/tmp/y.aiff'}, n=[100, 8, 1], cm='func'),
             op('b_alloc_read', h=2, **{'def': '/tmp/x.wav'}, n=[0, -1], cm='none'), op('b_alloc_read', h=2, **{'def': '/tmp/x.wav'}, n=[8, 64], cm='func'),
-            op('b_free', h=1, cm='func'), op('b_free', h=1, cm='list')]
+            op('b_free', h=1, cm='func'), op('b_free', h=1, cm='list'),
+            op('b_get', h=1, n=[3]), op('b_getn', h=1, n=[0, 4]),
+            op('b_sine1', h=1, a=[tf(8), tf(4), ti(1)], n=[1, 1, 1]), op('b_sine1', h=1, a=[tf(8)], n=[0, 0, 0]),
+            op('b_sine2', h=1, a=[ti(1), tf(8), ti(3), tf(2)], n=[1, 0, 1]),
+            op('b_sine3', h=1, a=[ti(1), tf(8), ti(0), ti(2), tf(4), tf(4)], n=[0, 1, 0]),
+            op('b_cheby', h=1, a=[tf(8), ti(0), tf(2)], n=[1, 1, 0]),
+            op('b_normalize', h=1, a=[tf(4)], n=[0]), op('b_normalize', h=1, a=[ti(1)], n=[1]),
+            op('b_copy', h=1, tk='obj', t=2, n=[0, 0, -1]), op('b_copy', h=1, tk='obj', t=2, n=[4, 2, 8])]
     hs = [pre + [c] for c in cmds]
     # after free: every command that checks refuses, double free is silent
     for c in (op('b_zero', h=1, cm='none'), op('b_close', h=1, cm='none'), op('b_query', h=1), op('b_set', h=1, a=[ti(0), tf(4)]),
               op('b_setn', h=1, a=[ti(0), tl(tf(1))]), op('b_fill', h=1, a=[ti(0), ti(4), tf(4)]),
-              op('b_write', h=1, **{'def': '/tmp/y.aiff'}, n=[-1, 0, 0], cm='none'), op('b_free', h=1, cm='none')):
+              op('b_write', h=1, **{'def': '/tmp/y.aiff'}, n=[-1, 0, 0], cm='none'), op('b_free', h=1, cm='none'),
+              op('b_get', h=1, n=[3]), op('b_getn', h=1, n=[0, 4]), op('b_sine1', h=1, a=[tf(8)], n=[1, 1, 1]),
+              op('b_normalize', h=1, a=[tf(4)], n=[0]), op('b_copy', h=1, tk='obj', t=2, n=[0, 0, -1])):
         hs.append(pre + [op('b_free', h=1, cm='none'), c])
     return hs
 
@@ -283,12 +294,12 @@ def random_history(rnd, n):
         if x < 0.75 and node:
             c = rnd.choice(node_ops(pick('cbus') or 0, pick('buf') or 0, pick('group', 'synth')))
             c = dict(c)
-            if c['op'] in ('free_all', 'deep_free'):
+            if c['op'] in ('free_all', 'deep_free', 'dump_tree'):
                 g = pick('group')
                 if not g:
                     return op('trace', h=node)
                 c['h'] = g
-            elif c['op'] == 's_get':
+            elif c['op'] in ('s_get', 's_getn'):
                 sy = pick('synth')
                 if not sy:
                     return op('trace', h=node)
@@ -441,12 +452,14 @@ def run(ctx):
         famcount[name] = len(hs)
         for k, h in enumerate(hs):
             cases.append(dict(cfg=CFG0 if (k % 3) else CFG1, hist=h))
+            if name in ('buffers', 'buses'):
+                cases.append(dict(cfg=CFGT, hist=h))       # two addresses per client: ids must come back on free
     for h in fam_creation()[:40] + fam_bind(1):
         cases.append(dict(cfg=CFGW, hist=h))            # node ids across the 2^26 wrap
     rnd = random.Random(ctx.seed)
     nrand = 4000 if thorough else 300
     for _ in range(nrand):
-        cases.append(dict(cfg=rnd.choice([CFG0, CFG1, CFGW]), hist=random_history(rnd, rnd.randint(8, 40))))
+        cases.append(dict(cfg=rnd.choice([CFG0, CFG1, CFGW, CFGT]), hist=random_history(rnd, rnd.randint(8, 40))))
     traces = run_cases(ctx, cases, 'nrt')
     total = judge(ctx, cases, traces, 'nrt')
     # RT mode: same objects on the UDP interface (send captured, nothing leaves the process)
